@@ -317,6 +317,7 @@ void fb_poly_init(void) {
 	fb_zero(ctx->fb_poly);
 	ctx->fb_pa = ctx->fb_pb = ctx->fb_pc = 0;
 	ctx->fb_na = ctx->fb_nb = ctx->fb_nc = -1;
+	ctx->fb_id = 0;
 }
 
 void fb_poly_clean(void) {
